@@ -16,7 +16,7 @@ SmallLens == {0, 1, 2, 3, 7, 8, 9, 64}
 
 Link == \/ state = "start" /\ state' = "eth" /\ c' = [c EXCEPT !.link = "eth"]
         \/ state = "start" /\ state' = "sll" /\ c' = [c EXCEPT !.link = "sll"]
-Vlan == state = "eth" /\ state' = "vlan" /\ \E v \in {1, 2, 3} : c' = [c EXCEPT !.vlan = v]
+Vlan == state = "eth" /\ state' = "vlan" /\ \E v \in {1, 2, 3, 4} : c' = [c EXCEPT !.vlan = v]     \* single_vlan, double_vlan, vlan(Single), vlan(Double)
 Net == /\ state \in {"start", "eth", "sll", "vlan"}
        /\ \/ \E n \in {"ipv4", "ipv6"} : c' = [c EXCEPT !.net = n] /\ state' = "ip"
           \/ \E o \in {0, 8, 40}, a \in {0, 1} : c' = [c EXCEPT !.net = "ip4", !.opts = o, !.auth = a] /\ state' = "ip"
